@@ -124,7 +124,7 @@ def run_shard(spec, M):
             elif fam == "structured":
                 text = workloads.structured_hostile(r)
             elif fam == "noisy":
-                L = noisy.gen(r)
+                L = noisy.gen_any(r)
                 text = noisy.text_of(L, nl=r.choice(["\n", "\n", "\r\n"]), final=r.random() < 0.8)
             elif fam == "docs":
                 text = docmodel.render(r, rare=(i % 3 == 0), size=r.choice(["small", "medium", "medium", "large"])).text
